@@ -148,10 +148,10 @@ def keep_names():
     if _KEEP is None:
         import re
         names = set()
-        rx = re.compile(r"([A-Za-z_][A-Za-z0-9_]*::[A-Za-z_][A-Za-z0-9_#]*)(?:<[^>()]*>)?(?=[(,)])")
+        rx = re.compile(r"([A-Za-z_][A-Za-z0-9_]*::[A-Za-z_][A-Za-z0-9_#]*)(?:<[^>()]*>)?(?=[(,)\x22])")
         for root, _d, fs in os.walk(os.path.join(VERIF, "rules")):
             for f in fs:
-                if f.endswith(".py") or f.endswith(".json"):
+                if f.endswith(".py"):      # (golden.json / leaves.json only record what the rules in the .py files made visible)
                     with open(os.path.join(root, f)) as fh:
                         names.update(rx.findall(fh.read()))
         _KEEP = names
@@ -230,7 +230,7 @@ class Ctx:
     def mention(self, *texts):
         """record the function names an evaluated expectation relies on (skipped while an instance filter excludes the rule)"""
         import re
-        rx = re.compile(r"([A-Za-z_][A-Za-z0-9_]*::[A-Za-z_][A-Za-z0-9_#]*)(?:<[^>()]*>)?(?=[(,)])")
+        rx = re.compile(r"([A-Za-z_][A-Za-z0-9_]*::[A-Za-z_][A-Za-z0-9_#]*)(?:<[^>()]*>)?(?=[(,)\x22])")
         for t in texts:
             self.mentions.update(rx.findall(t))
 
